@@ -197,7 +197,7 @@ def run(ctx):
                          'versions under other spellings first, with independent steps permuted / reversed, and after the same program with every version literal spelled with other trailing zeros; one program in three is a family (markers sharing their root variable over different subtrees, bounds under two spellings); every observation (raw kind() dump incl. un-normalised '
                          'segments, Display, DNF, is_true/false, evaluate, ==/cmp/hash between results) must coincide. (2) raw node ids through the '
                          'verification hook: id equality <=> equal dumps, id^1 <=> negated dump, complement bit = the extracted store model\'s prediction, '
-                         'repeating an operation adds no node, stored versions are normalised. (3) id-for-id replay: programs of 14-30 API operations (MarkerTree::expression, and, or, negate, simplify_extras, simplify/complexify_python_versions) in a fresh process against the extracted model of the crate's recursions on ids (and_i with memo cache, restrict_i, simplify/complexify_pv_i, create_node): the raw node id (index and complement bit) and the arena length must coincide after every step. non-trivial = distinct programs / distinct non-constant dumps')
+                         'repeating an operation adds no node, stored versions are normalised. (3) id-for-id replay: programs of 14-30 API operations (MarkerTree::expression, and, or, negate, simplify_extras, simplify/complexify_python_versions) in a fresh process against the extracted model of the recursions on ids (and_i with memo cache, restrict_i, simplify/complexify_pv_i, create_node): the raw node id (index and complement bit), the arena length and the diagram must coincide after every step. non-trivial = distinct programs / distinct non-constant dumps')
     # ---- (1) cross-history, fresh processes
     n_prog = 12 if quick else 60
     for p in range(n_prog):
@@ -294,7 +294,9 @@ def run(ctx):
     # ---- (3) id-for-id replay: the same program through the crate (fresh process, raw ids and arena length through the hook) and through the
     # extracted model of the crate's own recursions on ids (and_i with its memo cache, restrict_i, simplify/complexify_pv_i, create_node):
     # every step must yield the same raw id (index and complement bit) and the same arena length
-    for pi in range(6 if quick else 40):
+    POOL = ["extra == 'a'", "extra != 'a'", "extra == 'b'", "os_name == 'a'", "os_name != 'b'", "os_name < 'b'", "python_full_version >= '3.8'", "python_full_version < '3.9'",
+            "python_full_version == '3.8.*'", "python_version > '3.8'", "'x' in sys_platform", "sys_platform not in 'ab'", "implementation_version <= '3.9'", "python_full_version != '3.8.1'"]
+    for pi in range(30 if quick else 200):
         sess = markers.Session(h)
         keys = markers.Keys(sess.p)
         pv, pfv = keys.spelling['python_version'][1], keys.spelling['python_full_version'][1]
@@ -312,11 +314,37 @@ def run(ctx):
             return (int(x[1]), int(x[2]))
         impl = []
         tries = 0
-        while len(regs) < (14 if quick else 30) and tries < 200:
+        # one program in three starts with a fixed template: same-variable merges with mixed complement bits, touching bounds,
+        # complexify / simplify on complemented python_full_version nodes, restrict with two extras on one path
+        template = []
+        if pi % 3 == 0:
+            fam = ctx.rng.choice([("extra == 'a'", "extra == 'b'"), ("'x' in sys_platform", "extra == 'a'"), ("os_name == 'a'", "os_name == 'b'"),
+                                  ("python_full_version >= '3.8'", "python_full_version < '3.10'"), ("python_full_version <= '3.8.1'", "python_full_version >= '3.8.1'")])
+            template = [('expr', fam[0]), ('expr', fam[1]), ('or', 0, 1), ('not', 0), ('and', 2, 3), ('or', 2, 3), ('and', 3, 1), ('and', 0, 1), ('and', 1, 0),
+                        ('expr', "python_full_version >= '3.8'"), ('cplxpv', 9, 'U', ['E', S('3.11')]), ('cplxpv', 9, ['I', S('3.9')], ['I', S('3.12')]),
+                        ('not', 9), ('cplxpv', 12, ['E', S('3.7')], ['E', S('3.8')]), ('simppv', 10, ['I', S('3.8')], 'U'), ('and', 10, 4),
+                        ('expr', "extra == 'a'"), ('expr', "extra == 'b'"), ('and', 16, 17), ('simpx', 18, ['a', 'b']), ('or', 18, 2), ('simpx', 20, ['a'])]
+        for st in template:
+            if st[0] == 'expr':
+                a = sess.ask(['expr', S(st[1])])
+                impl.append(record(int(a[2]), ['expr', c10.typed_to_model(a[1])]))
+            elif st[0] in ('and', 'or'):
+                reg, _ = sess.op(st[0], regs[st[1]], regs[st[2]])
+                impl.append(record(reg, [st[0], str(st[1]), str(st[2])]))
+            elif st[0] == 'not':
+                reg, _ = sess.op('not', regs[st[1]])
+                impl.append(record(reg, ['not', str(st[1])]))
+            elif st[0] == 'simpx':
+                reg, _ = sess.op('simpx', regs[st[1]], [S(e) for e in st[2]])
+                impl.append(record(reg, ['simpx', [S(e) for e in st[2]], str(st[1])]))
+            else:
+                reg, _ = sess.op(st[0], regs[st[1]], st[2], st[3])
+                impl.append(record(reg, [st[0], c12.model_cut(sess, st[2], True), c12.model_cut(sess, st[3], False), str(st[1])]))
+        while len(regs) < (22 if quick else 40) + len(template) and tries < 300:
             tries += 1
             r = ctx.rng.random()
             if r < .4 or len(regs) < 3:
-                text = markers.gen_atom(ctx.rng, deprecated=0.0)
+                text = ctx.rng.choice(POOL) if ctx.rng.random() < .7 else markers.gen_atom(ctx.rng, deprecated=0.0)
                 a = sess.ask(['expr', S(text)])
                 if a[0] != 'ok' or a[1] == 'none':
                     continue
@@ -356,6 +384,10 @@ def run(ctx):
                 except trees.Unmodelled:
                     regs.pop(); msteps.pop()
                     break
+        sess_models = []
+        for rg in regs:
+            m_ = sess.models.get(rg)
+            sess_models.append(None if isinstance(m_, Exception) or m_ is None else m_)
         sess.close()
         out = fw.batch(build.DRIVER, [['runi', pv, pfv, msteps]])[0]
         ctx.evaluations += 1
@@ -366,6 +398,14 @@ def run(ctx):
         for n, (got, want) in enumerate(zip(out[1:], impl)):
             ctx.corr_cases += 1
             mid, mlen = int(got[0]), int(got[1])
+            try:
+                mdump = sess_models[n]
+            except Exception:
+                mdump = None
+            if mdump is not None and (mid, mlen) == want and got[3] != mdump:
+                ctx.disagreement('mstep_i ~ the crate: diagram of the result of step %d (%s)' % (n, dump(msteps[n])[:120]),
+                                 [dump(m)[:160] for m in msteps[:n + 1]], pretty(got[3])[:400], pretty(mdump)[:400])
+                break
             if (mid, mlen) != want:
                 ctx.disagreement('mstep_i ~ the crate: raw node id and arena length after step %d (%s)' % (n, dump(msteps[n])[:120]),
                                  [dump(m)[:160] for m in msteps[:n + 1]], 'id %d, arena %d' % (mid, mlen), 'id %d, arena %d' % want)
